@@ -137,7 +137,7 @@ def main():
         if k["status"] == "undecided":
             undecided.append(f"kani={k['harness']} reason={k['reason']}")
         elif k["status"] == "violation":
-            violations.append(R.make_kani_violation(prop, k, HERE, OUT))
+            violations.append(R.make_kani_violation(prop, k, HERE, OUT, cfg, args.repo))
         else:
             if k.get("bound"):
                 bounded.append({"harness": k["harness"], "fn": k.get("fn"), "bound": k["bound"], "tool": "kani/cbmc",
